@@ -1,6 +1,6 @@
 (* Dispatch of driver requests to the per-property executable models. *)
 From Coq Require Import List String.
-From PC Require Import Base.Sexp Run.RC11.
+From PC Require Import Base.Sexp Run.RC11 Run.RC07.
 Import ListNotations.
 Local Open Scope string_scope.
 
@@ -8,5 +8,6 @@ Definition run (req : sexp) : sexp :=
   match req with
   | Li [At "echo"; x] => x
   | Li [At "C11"; x] => run_C11 x
+  | Li [At "C07"; x] => run_C07 x
   | _ => bad_request
   end.
